@@ -104,3 +104,14 @@ func TestVerifFindingSetValueCutAtRepeatedFirstChar(t *testing.T) {
 		t.Errorf("set history-size 1010 stored %d", got)
 	}
 }
+
+// C19 (known finding, lemma key1_all_bind): Ctrl-\ (0x1c) is written \C-\ and Meta-\ (0xdc) \M-\, both ending in
+// a bare backslash; followed by the plain characters "M-x" / "C-x" the decoder reads \C-\M-x / \M-\C-x, the
+// control-meta prefix, and the sequence does not come back.
+func TestVerifFindingEscapeAmbiguousBackslashTail(t *testing.T) {
+	for _, k := range []string{"\x1cM-a", "\u00dcC-a"} {
+		if got := Unescape(Escape(k)); got != k {
+			t.Errorf("Unescape(Escape(%q)) = %q (Escape gives %q)", k, got, Escape(k))
+		}
+	}
+}
